@@ -18,7 +18,7 @@ func main() {
 		fmt.Fprintln(os.Stderr, "unknown command", a.Cmd)
 		os.Exit(2)
 	}
-	w, err := lib.NewWriter(a.Out, "C09", a.Tier, a.Seed, header, "case", 64)
+	w, err := lib.NewWriter(a.Out, "C09", a.Tier, a.Seed, header, "case", 48)
 	if err != nil {
 		panic(err)
 	}
